@@ -96,7 +96,11 @@ def run(tier):
     # quick tier: the 64-bit rows and both compare-exchange rows (20-90 s each); the 8/32-bit rows (4-5 min each) are thorough-tier
     quick_rows = {'store_int64_synchronized', 'exchange_int64_synchronized', 'compare_exchange_int32_synchronized',
                   'compare_exchange_int64_synchronized', 'fetch_add_int64_synchronized'}
-    kv, ku, kcov, kobl = kprop.kani_rows_for_verus_property('c09a', only=(quick_rows if tier == 'quick' else None), jobs=(5 if tier == 'quick' else 3))
+    if os.environ.get('VERIF_SKIP_KANI') == '1':
+        # self-test mode only (tools/selftest.py on mutants that do not touch the macro assembler): the Kani rows are not run and not claimed
+        kv, ku, kcov, kobl = [], [], dict(kani_unit='SKIPPED (VERIF_SKIP_KANI=1, self-test mode): clause (a) not checked in this run'), (0, 0, 'skipped')
+    else:
+        kv, ku, kcov, kobl = kprop.kani_rows_for_verus_property('c09a', only=(quick_rows if tier == 'quick' else None), jobs=(5 if tier == 'quick' else 3))
     pre_und += ku
     assumptions = [
         'keys are object addresses > 1 (0 and 1 are the EMPTY / DELETED markers) - precondition of insert',
